@@ -237,4 +237,44 @@ theorem discardStale_allowed (sort : List E → List E) (hsort : ∀ l x, x ∈ 
         rw [this] at hne
         exact hne hmout
 
+
+/-! ### `maxLevelIdx`: the name of the next table of a level is fresh -/
+
+theorem foldr_max (idxs : List Int) (res : Int) :
+    List.foldr (fun (e : Int) (kont1 : Int → Int) => fun res => if decide (res < e) = true then kont1 e else kont1 res) (fun res => res) idxs res
+      = idxs.foldl (fun a e => if a < e then e else a) res := by
+  induction idxs generalizing res with
+  | nil => rfl
+  | cons a idxs ih =>
+    simp only [List.foldr_cons, List.foldl_cons]
+    by_cases h : res < a
+    · simp only [h, decide_true, ↓reduceIte]; exact ih a
+    · simp only [h, decide_false, Bool.false_eq_true, ↓reduceIte]; exact ih res
+
+theorem foldl_max_ge (idxs : List Int) (res : Int) :
+    res ≤ idxs.foldl (fun a e => if a < e then e else a) res ∧ ∀ x ∈ idxs, x ≤ idxs.foldl (fun a e => if a < e then e else a) res := by
+  induction idxs generalizing res with
+  | nil => exact ⟨Int.le_refl _, by simp⟩
+  | cons a idxs ih =>
+    simp only [List.foldl_cons, List.mem_cons]
+    by_cases h : res < a
+    · simp only [h, ↓reduceIte]
+      obtain ⟨h1, h2⟩ := ih a
+      exact ⟨by omega, fun x hx => hx.elim (fun e => e ▸ h1) (h2 x)⟩
+    · simp only [h, ↓reduceIte]
+      obtain ⟨h1, h2⟩ := ih res
+      exact ⟨h1, fun x hx => hx.elim (fun e => by subst e; omega) (h2 x)⟩
+
+/-- the translated `maxLevelIdx` is at least every index of the level, so the index `maxLevelIdx + 1` given to the next
+    table written into the level (flush, L0 and LN compaction) names no table the level manager holds -/
+theorem maxLevelIdx_fresh (idxs : List Int) : ∀ x ∈ idxs, x < GenLevel.maxLevelIdx idxs + 1 := by
+  intro x hx
+  unfold GenLevel.maxLevelIdx
+  dsimp only
+  rw [foldr_max]
+  have := (foldl_max_ge idxs (-1)).2 x hx
+  omega
+
+theorem maxLevelIdx_empty : GenLevel.maxLevelIdx [] = -1 := rfl
+
 end LevelTie
